@@ -1,132 +1,85 @@
-(* Instances of exactly the hypotheses of older property theorems (Props/C12.v .. C15.v) that no Example reached; written
-   during the audit of 2026-10-02 (audit/props_C12_C15.md).  Props files restate them as Examples by [exact]. *)
-From Coq Require Import List NArith ZArith QArith Bool Arith Lia Lqa Permutation.
+(* Instances of the exact hypotheses of older property theorems (Props/C03.v, Props/C05.v) that no stated Example reached: written for
+   the audit of 2026-10-02 (audit/props_C03_C05_C07_C08.md).  Everything is about the diamond of PathEncExample.v. *)
+From Coq Require Import List NArith ZArith QArith Lqa Bool Arith Lia.
 Import ListNotations.
-From FP Require Import Lin Blocks BlocksProofs Wrapper WrapperProofs Search SearchProofs1 SearchProofs2
-                       Euler EulerProofs1 EulerProofs2 EulerProofs3 EulerProofs4
-                       MiscEnc MiscEncProofs MgsComplete MgsRange.
-Local Open Scope Q_scope.
+From FP Require Import Lin PathEnc Euler EulerProofs1 PathEncProofs PathEncComplete PathCoverComplete SafeFix SafeFixCover PathEncExample
+                       CoverOracle FlowOracle Search SearchProofs1.
+Local Close Scope Q_scope.
 
-(* ------------------------------------------------------------------ C15: a TRUTHFUL, everywhere conclusive status function *)
-Definition au_mgs : mgs_inst := {| mg_numbers := [1; 2]; mg_total := 1 + (2 + 0); mg_int := true; mg_mult := 1; mg_parts := None |}.
-Definition au_status (k : nat) : mstatus := if (2 <=? k)%nat then MgOptimal else MgInfeasible.
-
-Lemma au_genset_needs_two (g : list Q) : genset 1 [1; 2] (1 + (2 + 0)) g -> (2 <= length g)%nat.
+(* C05_safe_path_fixing_preserves_feasibility: every hypothesis at once *)
+Lemma ex_fix_all_premises :
+  wf_graph (p_graph (f_base (exI 2))) /\ p_allow_empty (f_base (exI 2)) = false /\
+  (forall u v, In (u, v) (g_edges (p_graph (f_base (exI 2)))) -> (exRank u < exRank v)%nat) /\ (forall v, (exRank v <= 3)%nat) /\
+  (forall c e, In c (p_cons (f_base (exI 2))) -> In e c -> In e (g_edges (p_graph (f_base (exI 2)))) /\ (0 <= elen (f_base (exI 2)) e)%Q) /\
+  (length exSs <= p_k (f_base (exI 2)))%nat /\
+  (forall P w, decomposition (exI 2) P w -> constraints_covered (f_base (exI 2)) P ->
+     forall j S, nth_error exSs j = Some S -> exists i, In i (layers (p_k (f_base (exI 2)))) /\ incl S (pairs (P i))) /\
+  (forall j j' S S', j <> j' -> nth_error exSs j = Some S -> nth_error exSs j' = Some S' ->
+     forall l, NoDup l -> incl S (pairs l) -> incl S' (pairs l) -> False).
 Proof.
-  intros (Hnn & Hsum & Hgen). destruct g as [|v [|v2 g]]; [exfalso|exfalso|cbn; lia].
-  - revert Hsum. vm_compute. discriminate.
-  - destruct (Hgen 1 (or_introl eq_refl)) as (xs & Hl & Hr & Hd).
-    destruct xs as [|x [|? ?]]; try discriminate Hl. inversion Hr as [|? ? Hx _]; subst.
-    cbn [sumql dotz] in *. assert (Hx' : x = 0%Z \/ x = 1%Z) by lia. destruct Hx' as [-> | ->].
-    + change (inject_Z 0) with 0 in Hd. lra.
-    + change (inject_Z 1) with 1 in Hd. lra.
+  split; [exact ex_wf|]. split; [reflexivity|]. split; [exact ex_rank|]. split; [exact ex_rank_le|]. split; [exact (ex_cons_ok 2)|].
+  split; [cbn; lia|]. split; [exact ex_fix_safe|exact ex_fix_incompatible].
 Qed.
 
-Lemma au_sat_two : exists a, sat a (encode_mgs au_mgs 2).
+(* C05_safety_as_subpath_constraints_preserves_feasibility: its three specific hypotheses *)
+Lemma ex_safety_cons_premises :
+  (forall c e, In c (p_cons (f_base (exI 2)) ++ exSs) -> In e c -> In e (g_edges (p_graph (f_base (exI 2)))) /\ (0 <= elen (f_base (exI 2)) e)%Q) /\
+  (p_cov (f_base (exI 2)) <= 1)%Q /\
+  (forall P w, decomposition (exI 2) P w -> constraints_covered (f_base (exI 2)) P ->
+     forall S, In S exSs -> exists i, In i (layers (p_k (f_base (exI 2)))) /\ incl S (pairs (P i))).
 Proof.
-  apply (mgs_enc_complete au_mgs 2 [1; 2]); [cbn; lia|reflexivity|].
-  split; [|split; [intros _; repeat constructor; [exists 1%Z|exists 2%Z]; reflexivity|unfold parts_of; cbn; constructor]].
-  split; [repeat constructor; discriminate|]. split; [reflexivity|].
-  intros a Ha. cbn in Ha. destruct Ha as [<-|[<-|[]]]; [exists [1; 0]%Z|exists [0; 1]%Z];
-    (split; [reflexivity|split; [apply Forall_cons; [cbn; lia|apply Forall_cons; [cbn; lia|apply Forall_nil]]|vm_compute; reflexivity]]).
+  split; [|split].
+  - intros c e Hc He. cbn in Hc. destruct Hc as [<-|[<-|[<-|[]]]]; cbn in He; unfold elen; cbn [p_len f_base exI exB];
+      (split; [cbn; intuition (subst; auto)|lra]).
+  - cbn. lra.
+  - intros P w Hd Hcc S HS. destruct (In_nth_error _ _ HS) as (j & Hj). exact (ex_fix_safe P w Hd Hcc j S Hj).
 Qed.
 
-Lemma au_mgs_truthful_status :
-  mg_parts au_mgs = None /\ (1 <= mg_mult au_mgs)%nat /\ mgs_domain au_mgs /\ (length (mg_numbers au_mgs) <= 2)%nat /\
-  (forall k, au_status k = MgOptimal -> exists a, sat a (encode_mgs au_mgs k)) /\
-  (forall k, au_status k = MgInfeasible -> forall a, ~ sat a (encode_mgs au_mgs k)) /\
-  (forall k, au_status k = MgOptimal \/ au_status k = MgInfeasible) /\
-  mgsm_loop au_status 0 2 (extra_cuts (mg_parts au_mgs)) = ([1; 2]%nat, Some 2%nat).
+(* C05_cover_safety_as_subpath_constraints_preserves_feasibility: every hypothesis, for the cover instance exB 2 without ignore list;
+   the two lists are safe because every cover passes every edge *)
+Lemma ex_cover_safety_premises :
+  wf_graph (p_graph (exB 2)) /\ p_allow_empty (exB 2) = false /\
+  (forall u v, In (u, v) (g_edges (p_graph (exB 2))) -> (exRank u < exRank v)%nat) /\ (forall v, (exRank v <= 3)%nat) /\
+  (forall c e, In c (p_cons (exB 2) ++ exSs) -> In e c -> In e (g_edges (p_graph (exB 2))) /\ (0 <= elen (exB 2) e)%Q) /\
+  (p_cov (exB 2) <= 1)%Q /\
+  (forall P, path_cover (exB 2) [] P -> constraints_covered (exB 2) P ->
+     forall S, In S exSs -> exists i, In i (layers (p_k (exB 2))) /\ incl S (pairs (P i))) /\
+  (exists a, sat a (encode_kpc (exB 2) [])).
 Proof.
-  split; [reflexivity|]. split; [cbn; lia|].
-  split; [split; [vm_compute; discriminate|split; [repeat constructor; vm_compute; discriminate|
-            intros _; split; [exists 3%Z; reflexivity|repeat constructor; [exists 1%Z|exists 2%Z]; reflexivity]]]|].
-  split; [cbn; lia|]. split; [|split; [|split; [|vm_compute; reflexivity]]].
-  - intros k Hk. unfold au_status in Hk. destruct (2 <=? k)%nat eqn:E; [|discriminate Hk]. apply Nat.leb_le in E.
-    exact (mgs_feasible_monotone au_mgs 2 k eq_refl ltac:(cbn; lia) E au_sat_two).
-  - intros k Hk a Hs. unfold au_status in Hk. destruct (2 <=? k)%nat eqn:E; [discriminate Hk|]. apply Nat.leb_gt in E.
-    destruct (proj1 (mgs_feasible_iff au_mgs k eq_refl ltac:(cbn; lia)) (ex_intro _ a Hs)) as (g & Hl & (Hg & _)).
-    pose proof (au_genset_needs_two g Hg). lia.
-  - intros k. unfold au_status. destruct (2 <=? k)%nat; [left|right]; reflexivity.
+  split; [exact ex_wf|]. split; [reflexivity|]. split; [exact ex_rank|]. split; [exact ex_rank_le|]. split; [|split; [|split]].
+  - intros c e Hc He. cbn in Hc. destruct Hc as [<-|[<-|[<-|[]]]]; cbn in He; unfold elen; cbn [p_len exB];
+      (split; [cbn; intuition (subst; auto)|lra]).
+  - cbn. lra.
+  - intros P [_ Hcov] _ S HS. cbn in HS. destruct HS as [<-|[<-|[]]].
+    + destruct (Hcov (0, 1)%N) as (i & Hi & M); [cbn; auto|reflexivity|]. exists i. split; [exact Hi|]. intros e [<-|[]]. apply mem_edge_In. exact M.
+    + destruct (Hcov (0, 2)%N) as (i & Hi & M); [cbn; auto|reflexivity|]. exists i. split; [exact Hi|]. intros e [<-|[]]. apply mem_edge_In. exact M.
+  - exact ex_kpc_feasible_2.
 Qed.
 
-(* ------------------------------------------------------------------ C12 *)
-Definition au_b : var := V 100 [0%N]. Definition au_c : var := V 101 [0%N]. Definition au_p : var := V 102 [0%N].
-Definition au_asg (vb vc vp : Q) (v : var) : Q :=
-  if var_eqb v au_b then vb else if var_eqb v au_c then vc else if var_eqb v au_p then vp else 0.
-
-(* binary * continuous: b = 1, c = 3 in [0, 5]: p = 3 satisfies the four rows, p = 2 does not *)
-Lemma au_binary_product :
-  bin (au_asg 1 3 3 au_b) /\ 0 <= au_asg 1 3 3 au_c <= 5 /\
-  Forall (sat_row (au_asg 1 3 3)) (mcc_rows au_b au_c au_p 0 5) /\ ~ Forall (sat_row (au_asg 1 3 2)) (mcc_rows au_b au_c au_p 0 5).
+(* C03_verified_oracle_returns_the_minimum: the hypotheses hold for the diamond and the oracle answers 2 (the constraint forces two paths) *)
+Lemma ex_oracle_premises :
+  wf_graph (p_graph (f_base (exI 0))) /\ (forall u v, In (u, v) (g_edges (p_graph (f_base (exI 0)))) -> (exRank u < exRank v)%nat) /\
+  f_int (exI 0) = true /\
+  (forall e, In e (need_of (exI 0)) -> is_int (lookup_q e (f_flow (exI 0)) 0%Q) /\ (0 <= lookup_q e (f_flow (exI 0)) 0 <= f_wmax (exI 0))%Q) /\
+  (0 <= f_wmax (exI 0))%Q /\ min_fd (exI 0) 3 = Some 2%nat.
 Proof.
-  assert (B : bin (au_asg 1 3 3 au_b)) by (right; reflexivity).
-  assert (R : 0 <= au_asg 1 3 3 au_c <= 5) by (vm_compute; split; discriminate).
-  split; [exact B|]. split; [exact R|]. split.
-  - apply (mcc_rows_exact (au_asg 1 3 3) au_b au_c au_p 0 5 B R). vm_compute. reflexivity.
-  - intros H. apply (mcc_rows_exact (au_asg 1 3 2) au_b au_c au_p 0 5 B R) in H. revert H. vm_compute. discriminate.
+  split; [exact ex_wf|]. split; [exact ex_rank|]. split; [reflexivity|]. split; [|split; [cbn; lra|vm_compute; reflexivity]].
+  intros e He. cbn in He. destruct He as [<-|[<-|[<-|[<-|[]]]]].
+  - split; [exists 2%Z; vm_compute; reflexivity|vm_compute; split; discriminate].
+  - split; [exists 3%Z; vm_compute; reflexivity|vm_compute; split; discriminate].
+  - split; [exists 2%Z; vm_compute; reflexivity|vm_compute; split; discriminate].
+  - split; [exists 3%Z; vm_compute; reflexivity|vm_compute; split; discriminate].
 Qed.
 
-(* integer * continuous: x = 3, c = 2, p = 6, bounds [0, 5] (3 bits): every hypothesis holds and the helper columns / rows have a
-   completion; DEGENERATE ub = 0: num_bits 0 = 0, no bit at all, the only admitted integer is 0 *)
-Lemma au_integer_product :
-  (vfam au_b <> fBit /\ vfam au_b <> fComp) /\ (vfam au_c <> fBit /\ vfam au_c <> fComp) /\ (vfam au_p <> fBit /\ vfam au_p <> fComp) /\
-  0 <= au_asg 3 2 6 au_c <= 5 /\ 0 <= 0 <= 5 /\
-  (exists a', (forall v, vfam v <> fBit -> vfam v <> fComp -> a' v = au_asg 3 2 6 v) /\
-              Forall (sat_col a') (intprod_cols au_p 0 5 (num_bits 5)) /\ Forall (sat_row a') (intprod_rows au_b au_c au_p 0 5 (num_bits 5))) /\
-  num_bits 0 = 0%nat /\
-  (forall z : Z, (0 <= z < 2 ^ Z.of_nat (num_bits 0))%Z -> z = 0%Z).
+(* C03_search_returns_least_feasible_k: a feasibility predicate that is false below 2, the status list of an exact solver from lb = 1 *)
+Lemma ex_search_premises :
+  let feasible := fun k => (2 <=? k)%nat in
+  let sts := map (fun k => mkraw (if feasible k then Optimal else Infeasible) false) (seq 1 3) in
+  (forall i, (i < 4 - 1)%nat -> exists x, nth_error sts i = Some x /\ status_of x = if feasible (1 + i)%nat then Optimal else Infeasible) /\
+  feasible 2%nat = true /\ (forall k, (k < 2)%nat -> feasible k = false) /\ (1 <= 2 < 4)%nat /\
+  so_res (mpc_solve true 1 4 sts) = Solved 2%nat.
 Proof.
-  assert (F : forall v : var, vfam v = 100%N \/ vfam v = 101%N \/ vfam v = 102%N -> vfam v <> fBit /\ vfam v <> fComp)
-    by (intros v [E|[E|E]]; rewrite E; split; vm_compute; discriminate).
-  assert (Fb := F au_b (or_introl eq_refl)). assert (Fc := F au_c (or_intror (or_introl eq_refl))).
-  assert (Fp := F au_p (or_intror (or_intror eq_refl))).
-  assert (R : 0 <= au_asg 3 2 6 au_c <= 5) by (vm_compute; split; discriminate).
-  assert (Z0 : 0 <= 0 <= 5) by (split; discriminate).
-  split; [exact Fb|]. split; [exact Fc|]. split; [exact Fp|]. split; [exact R|]. split; [exact Z0|]. split; [|split; [reflexivity|]].
-  - apply (proj2 (intprod_helper_exact au_b au_c au_p 0 5 (au_asg 3 2 6) Fb Fc Fp R Z0)).
-    exists 3%Z. split; [reflexivity|]. split; [vm_compute; split; [discriminate|reflexivity]|vm_compute; reflexivity].
-  - intros z Hz. change (num_bits 0) with 0%nat in Hz. cbn in Hz. lia.
-Qed.
-
-(* piecewise constant: ranges [0,1] -> 0 and [2,3] -> 100; x = 5/2 forces y = 100; every hypothesis holds and the selector columns
-   have a completion; DEGENERATE ps = []: no (x, y) is admitted at all *)
-Definition au_ps : list piece := [(0, 1, 0); (2, 3, 100)].
-Lemma au_piecewise :
-  vfam au_b <> fZ /\ vfam au_c <> fZ /\ (forall p', In p' au_ps -> pL p' <= pU p') /\
-  (exists a', (forall v, vfam v <> fZ -> a' v = au_asg (5 # 2) 100 0 v) /\
-              Forall (sat_col a') (pwc_cols au_c au_ps) /\ Forall (sat_row a') (pwc_rows au_b au_c au_ps)) /\
-  (forall a, ~ exists p, In p (@nil piece) /\ pL p <= a au_b <= pU p /\ a au_c == pC p).
-Proof.
-  assert (Fx : vfam au_b <> fZ) by (vm_compute; discriminate). assert (Fy : vfam au_c <> fZ) by (vm_compute; discriminate).
-  assert (Hr : forall p', In p' au_ps -> pL p' <= pU p') by (intros p' [<-|[<-|[]]]; vm_compute; discriminate).
-  split; [exact Fx|]. split; [exact Fy|]. split; [exact Hr|]. split.
-  - apply (proj2 (pwc_helper_exact au_b au_c au_ps (au_asg (5 # 2) 100 0) Fx Fy Hr)).
-    exists (2, 3, 100). split; [right; left; reflexivity|]. split; [vm_compute; split; discriminate|vm_compute; reflexivity].
-  - intros a (p & [] & _).
-Qed.
-
-(* get_values reads position i of the solver's value list with default 0: an index beyond the list is answered with 0 *)
-Lemma au_get_values_default : get_values [7] [(tt, 0%nat); (tt, 5%nat)] = [(tt, 7); (tt, 0)].
-Proof. reflexivity. Qed.
-
-(* ------------------------------------------------------------------ C14: every hypothesis of the two walk theorems, incl. NoDup
-   of the edge list, zero excess at EVERY other node and connectivity, on 0 -> 1 (once), the loop 1 -> 1 (twice), 1 -> 2 (once) *)
-Definition au_es : list (edge * Q) := [((0, 1)%N, 1); ((1, 1)%N, 2); ((1, 2)%N, 1)].
-Lemma au_walk_hypotheses :
-  let g0 := residual_q au_es in
-  NoDup (map fst au_es) /\ 0%N <> 2%N /\ exc g0 0%N = 1%Z /\ exc g0 2%N = (-1)%Z /\
-  (forall x, x <> 0%N -> x <> 2%N -> exc g0 x = 0%Z) /\ (forall a b, In (a, b) g0 -> reach g0 0%N a) /\
-  solution_walk au_es 0%N 2%N = Some (O, [1; 1; 1]%N).
-Proof.
-  cbn zeta. assert (G : residual_q au_es = [(0, 1); (1, 1); (1, 1); (1, 2)]%N) by reflexivity. rewrite G.
-  split; [repeat constructor; cbn; intuition discriminate|]. split; [discriminate|]. split; [reflexivity|]. split; [reflexivity|].
-  split; [|split; [|vm_compute; reflexivity]].
-  - intros x H0 H2. destruct (N.eq_dec x 1) as [->|H1]; [reflexivity|].
-    unfold exc, outd, ind. cbn [filter fst snd].
-    replace (0 =? x)%N with false by (symmetry; apply N.eqb_neq; congruence).
-    replace (1 =? x)%N with false by (symmetry; apply N.eqb_neq; congruence).
-    replace (2 =? x)%N with false by (symmetry; apply N.eqb_neq; congruence). reflexivity.
-  - intros a b H. assert (R1 : reach [(0, 1); (1, 1); (1, 1); (1, 2)]%N 0%N 1%N) by (eapply reach_step; [apply reach_refl|left; reflexivity]).
-    cbn in H. destruct H as [H|[H|[H|[H|[]]]]]; injection H as <- <-; [apply reach_refl|exact R1|exact R1|exact R1].
+  cbn zeta. split; [|split; [reflexivity|split; [|split; [lia|vm_compute; reflexivity]]]].
+  - intros i Hi. do 3 (destruct i as [|i]; [eexists; split; reflexivity|]). lia.
+  - intros k Hk. destruct k as [|[|k]]; [reflexivity|reflexivity|lia].
 Qed.
